@@ -9,6 +9,7 @@ def _nontrivial(t):
 CFG = {
     "module": "Swat4.Properties.C14",
     "theorems": [
+        "Swat4.C14.facts_config_wiring",
         "Swat4.C14.listed_iff_live",
         "Swat4.C14.scan_selects_stale",
         "Swat4.C14.remove_refused_when_refreshed",
